@@ -90,6 +90,7 @@ type fnCtx struct {
 	names      map[string]int
 	sweep      bool
 	inputs     map[string]string
+	lkeys      map[string]bool
 }
 
 type frame struct {
@@ -114,6 +115,7 @@ type frame struct {
 	top      bool
 	siteOK   map[*ssa.Alloc]bool
 	lastRange string
+	noEsc    bool // suppress the "escaped" assumption (loop-carried locals)
 }
 
 type retRec struct {
@@ -386,6 +388,10 @@ func (e *Engine) genFunction(fn *ssa.Function) (fc *fnCtx, err error) {
 		t := env.evalBool(rq.Expr, rq.Src)
 		fc.sc.assume(t)
 	}
+	for _, rq := range fc.c.Assumes {
+		t := env.evalBool(rq.Expr, rq.Src)
+		fc.sc.assume(t)
+	}
 	fr.run(st, args)
 	// returns
 	for _, rr := range fr.retStates {
@@ -487,6 +493,10 @@ func (fr *frame) typeInv(st *state, v, srt string, t types.Type, isParam bool) {
 		sc.assume(implies(st.reach, fmt.Sprintf("(and (<= 0 (slo %s)) (<= (slo %s) (shi %s)))", v, v, v)))
 	case "Slice":
 		sc.assume(implies(st.reach, fmt.Sprintf("(and (<= 0 (soff %s)) (<= 0 (sllen %s)) (<= 0 (sref %s)) (< (sref %s) %s) (=> (= (sref %s) 0) (= (sllen %s) 0)))", v, v, v, v, st.alloc, v, v)))
+		// a slice obtained from a parameter, the heap or a call is reachable by others
+		if !fr.noEsc {
+			sc.assume(implies(st.reach, app("select", fr.fc.hget(st, "ESC"), app("sref", v))))
+		}
 	case "Int":
 		if t == nil {
 			return
@@ -495,6 +505,9 @@ func (fr *frame) typeInv(st *state, v, srt string, t types.Type, isParam bool) {
 		case *types.Pointer, *types.Map, *types.Chan:
 			_ = tt
 			sc.assume(implies(st.reach, fmt.Sprintf("(and (<= 0 %s) (< %s %s))", v, v, st.alloc)))
+			if _, isMap := tt.(*types.Map); isMap && !fr.noEsc {
+				sc.assume(implies(st.reach, app("select", fr.fc.hget(st, "ESC"), v)))
+			}
 			if isParam {
 				if _, ok := tt.(*types.Pointer); ok {
 					// assumption A-nonnil: pointer parameters are non-nil at entry
@@ -775,13 +788,22 @@ func (fr *frame) loopVars(h *ssa.BasicBlock) map[string]TV {
 			vars[n] = TV{T: t, Sort: u.sortOf(v.Type()), Typ: v.Type()}
 		}
 	}
-	for _, in := range h.Instrs {
-		phi, ok := in.(*ssa.Phi)
-		if !ok {
-			break
-		}
-		if phi.Comment != "" {
-			vars[phi.Comment] = TV{T: fr.regs[phi], Sort: u.sortOf(phi.Type()), Typ: phi.Type()}
+	// phis of dominating blocks (variables of enclosing loops), nearest dominator last
+	var doms []*ssa.BasicBlock
+	for d := h; d != nil; d = d.Idom() {
+		doms = append(doms, d)
+	}
+	for i := len(doms) - 1; i >= 0; i-- {
+		for _, in := range doms[i].Instrs {
+			phi, ok := in.(*ssa.Phi)
+			if !ok {
+				break
+			}
+			if phi.Comment != "" {
+				if t, ok := fr.regs[phi]; ok {
+					vars[phi.Comment] = TV{T: t, Sort: u.sortOf(phi.Type()), Typ: phi.Type()}
+				}
+			}
 		}
 	}
 	return vars
@@ -861,6 +883,23 @@ func (fr *frame) localsAt(b *ssa.BasicBlock) map[string]TV {
 			vars[n] = TV{T: t, Sort: u.sortOf(v.Type()), Typ: v.Type()}
 		}
 	}
+	var doms []*ssa.BasicBlock
+	for d := b; d != nil; d = d.Idom() {
+		doms = append(doms, d)
+	}
+	for i := len(doms) - 1; i >= 0; i-- {
+		for _, in := range doms[i].Instrs {
+			phi, ok := in.(*ssa.Phi)
+			if !ok {
+				break
+			}
+			if phi.Comment != "" {
+				if t, ok := fr.regs[phi]; ok {
+					vars[phi.Comment] = TV{T: t, Sort: u.sortOf(phi.Type()), Typ: phi.Type()}
+				}
+			}
+		}
+	}
 	return vars
 }
 
@@ -912,7 +951,13 @@ func (fr *frame) enterLoop(h *ssa.BasicBlock, li *loopInfo, cur *state) {
 		srt := u.sortOf(phi.Type())
 		v := sc.declare("lp_"+phi.Comment, srt)
 		fr.regs[phi] = v
+		fr.noEsc = true
 		fr.typeInv(cur, v, srt, phi.Type(), false)
+		fr.noEsc = false
+		if phi.Comment == "rangeindex" {
+			// built-in invariant of the compiler-generated range counter (starts at -1, only incremented)
+			sc.assume(implies(cur.reach, fmt.Sprintf("(>= %s (- 1))", v)))
+		}
 	}
 	var ks []string
 	for k := range li.writes {
@@ -1377,4 +1422,125 @@ func (e *Engine) genLemmas() *fnCtx {
 		fc.obls = append(fc.obls, o)
 	}
 	return fc
+}
+
+// fieldInvOf returns the "pkg.Type.field" name if the heap key is a field with a declared invariant.
+func (fc *fnCtx) fieldInvOf(key string) (string, bool) {
+	if !strings.HasPrefix(key, "F|") {
+		return "", false
+	}
+	k := strings.SplitN(key, "@", 2)[0]
+	parts := strings.Split(k, "|")
+	if len(parts) < 3 {
+		return "", false
+	}
+	if fc.e.contracts.FieldInv[parts[1]] {
+		return parts[1], true
+	}
+	return "", false
+}
+
+func nonNilTerm(v, sort string) string {
+	switch sort {
+	case "Val":
+		return fmt.Sprintf("(not (= (vtag %s) 0))", v)
+	case "Slice":
+		return fmt.Sprintf("(not (= (sref %s) 0))", v)
+	}
+	return fmt.Sprintf("(not (= %s 0))", v)
+}
+
+// markEscaped records that a slice or map value has become reachable from the heap / a callee.
+func (fr *frame) markEscaped(st *state, v string, t types.Type) {
+	if t == nil {
+		return
+	}
+	fc := fr.fc
+	switch t.Underlying().(type) {
+	case *types.Slice:
+		fc.hset(st, "ESC", app("store", fc.hget(st, "ESC"), app("sref", v), "true"))
+	case *types.Map:
+		fc.hset(st, "ESC", app("store", fc.hget(st, "ESC"), v, "true"))
+	}
+}
+
+// havocFramed havocs heap keys after a call; arrays and maps that were allocated before the call and
+// have not escaped (ESC false) are preserved: a callee can only reach what has been stored in the heap
+// or passed to it.
+func (fc *fnCtx) havocFramed(st *state, pre *state, keys []string) {
+	sc := fc.sc
+	seen := map[string]bool{}
+	for _, k := range keys {
+		if k == "*" {
+			fc.havoc(st, "*")
+			return
+		}
+		seen[k] = true
+	}
+	var ks []string
+	for k := range seen {
+		ks = append(ks, k)
+	}
+	sort.Strings(ks)
+	esc := fc.hget(pre, "ESC")
+	for _, k := range ks {
+		if k == "EXT" || k == "CH" || k == "ESC" {
+			continue
+		}
+		old := fc.hget(pre, k)
+		fc.havoc(st, k)
+		if (strings.HasPrefix(k, "A|") || strings.HasPrefix(k, "MD|") || strings.HasPrefix(k, "MV|")) && fc.localKeys()[k] {
+			nw := st.heap[k]
+			r := sc.fresh("r")
+			sc.assume(fmt.Sprintf("(forall ((%s Int)) (! (=> (and (< 0 %s) (< %s %s) (not (select %s %s))) (= (select %s %s) (select %s %s))) :pattern ((select %s %s))))", r, r, r, pre.alloc, esc, r, nw, r, old, r, nw, r))
+		}
+	}
+}
+
+// localKeys: heap keys of arrays / maps this verification unit allocates itself (statically): only for
+// those is the "unescaped objects survive calls" frame worth stating.
+func (fc *fnCtx) localKeys() map[string]bool {
+	if fc.lkeys != nil {
+		return fc.lkeys
+	}
+	fc.lkeys = map[string]bool{}
+	var visit func(f *ssa.Function)
+	seen := map[*ssa.Function]bool{}
+	visit = func(f *ssa.Function) {
+		if f == nil || seen[f] {
+			return
+		}
+		seen[f] = true
+		u := fc.e.u
+		for _, b := range f.Blocks {
+			for _, in := range b.Instrs {
+				switch v := in.(type) {
+				case *ssa.MakeSlice:
+					fc.lkeys[u.arrKey(v.Type().Underlying().(*types.Slice).Elem())] = true
+				case *ssa.MakeMap:
+					md, mv, _, _ := fc.e.mapKeys(v.Type())
+					fc.lkeys[md], fc.lkeys[mv] = true, true
+				case *ssa.Alloc:
+					if at, ok := v.Type().Underlying().(*types.Pointer).Elem().Underlying().(*types.Array); ok {
+						fc.lkeys[u.arrKey(at.Elem())] = true
+					}
+				case *ssa.Call:
+					if b, ok := v.Call.Value.(*ssa.Builtin); ok && b.Name() == "append" {
+						if st, ok := v.Type().Underlying().(*types.Slice); ok {
+							fc.lkeys[u.arrKey(st.Elem())] = true
+						}
+					}
+					if g := v.Call.StaticCallee(); g != nil && fc.e.isRepoFn(g) {
+						if ct := fc.e.contracts.Funcs[fc.e.keyOf(g)]; (ct != nil && ct.Inline) || g.Parent() != nil {
+							visit(g)
+						}
+					}
+				case *ssa.MakeClosure:
+					visit(v.Fn.(*ssa.Function))
+				}
+			}
+		}
+	}
+	visit(fc.fn)
+	return fc.lkeys
 }
